@@ -44,7 +44,8 @@ K_QUICK = ([H("k_len_prefix_u16", "codec", mem=4)]
            + [H(n, "codec", mem=4) for n in names_in("network__compression.rs", "k_delta_roundtrip_.*")]
            + [H(n, "codec", mem=4) for n in names_in("network__compression.rs", "k_delta_total_.*")]
            + [H(n, "codec", timeout=600, mem=8) for n in names_in("network__compression.rs", "k_rle_stage_total_len[123]")]
-           + [H(n, "codec", timeout=600, mem=8) for n in names_in("network__compression.rs", "k_rle_guard_len[1-5]")])
+           + [H(n, "codec", timeout=600, mem=8) for n in names_in("network__compression.rs", "k_rle_guard_len[1-5]")]
+           + [H("k_rle_guard_len8", "codec", timeout=1200, mem=10), H("k_rle_guard_len12", "codec", timeout=1800, mem=12)])
 K_THOROUGH = ([H(n, "codec_more", tier="thorough", mem=4) for n in names_in("network__compression@more.rs")]
               + [H("k_rle_guard_len6", "codec", tier="thorough", timeout=900, mem=8),
                  H("k_rle_roundtrip_len1", "codec", tier="thorough", timeout=1200, mem=16),
@@ -53,7 +54,7 @@ K_THOROUGH = ([H(n, "codec_more", tier="thorough", mem=4) for n in names_in("net
 PROPERTIES["C14"] = {
     "level": "model_checking",
     "harnesses": K_QUICK + K_THOROUGH,
-    "claim": "Solver-decided (Kani/CBMC) on the real codec code, stage-wise: (1) delta layer round trip delta_decode(r, delta_encode(r, xs)) == xs for every byte value at every enumerated length shape (reference 0..3 bytes, two inputs of 0..3 bytes); (2) delta stage totality and exactness on every length shape of total size <= 5 (quick) / 7 (thorough) bytes incl. truncated prefixes and over-long length claims, all payload bytes symbolic, with re-encoding equal to the input; (3) the real decode()'s RLE stage on every byte string of <= 3 bytes (no panic/overflow/OOB, malformed rejected); (4) the guard in front of bitfield_rle::decode on every byte string of <= 5 (6) bytes: malformed or oversized (> 4x legitimate maximum) streams never reach the allocator; (5) u16 length prefix faithful for all lengths <= 65535; thorough adds the real bitfield-rle encode/decode round trip for every buffer of 1..2 bytes.",
+    "claim": "Solver-decided (Kani/CBMC) on the real codec code, stage-wise: (1) delta layer round trip delta_decode(r, delta_encode(r, xs)) == xs for every byte value at every enumerated length shape (reference 0..3 bytes, two inputs of 0..3 bytes); (2) delta stage totality and exactness on every length shape of total size <= 5 (quick) / 7 (thorough) bytes incl. truncated prefixes and over-long length claims, all payload bytes symbolic, with re-encoding equal to the input; (3) the real decode()'s RLE stage on every byte string of <= 3 bytes (no panic/overflow/OOB, malformed rejected); (4) the guard in front of bitfield_rle::decode on every byte string of <= 5, 8 and 12 (6 thorough) bytes: malformed or oversized (> 4x legitimate maximum) streams never reach the allocator; (5) u16 length prefix faithful for all lengths <= 65535; thorough adds the real bitfield-rle encode/decode round trip for every buffer of 1..2 bytes.",
     "note": "bitfield-rle/varinteger are the real crates from the cargo cache; lengths are enumerated shapes up to the stated bound while all byte values are symbolic; stage (3) assumes the well-formed reading decodes to <= 4 bytes (loop bound); the composition encode->decode through the real RLE crate for symbolic content is outside the quick claim (CBMC runs out of memory on symbolic-length heap copies) and rests on stages (1)+(thorough RLE round trip)",
     "bounds": {"delta round trip": "reference <= 3 bytes, 2 inputs <= 3 bytes each (6 shapes)", "delta totality": "all shapes with total size <= 5 (quick) / <= 7 (thorough)",
                "rle stage": "data <= 3 bytes, decoded size <= 4", "rle guard": "data <= 5 bytes (6 thorough)", "unwind": "per harness, with unwinding assertions"},
@@ -88,7 +89,7 @@ def Q(n, **kw):
 Q_ADD = [Q("q_add_step_rl"), Q("q_add_step_def")]
 Q_INPUT = [Q("q_input_step_rl"), Q("q_input_step_def")]
 Q_MISC = [Q("q_discard_step"), Q("q_confirmed_input_step"), Q("q_reset_step")]
-Q_DELAY = [Q("q_delay_increase_steady")]
+Q_DELAY = [Q("q_delay_increase_steady"), Q("q_delay_before_first_input")]
 S_MIN = [Q("s_consistency_is_min", mem=6)]
 S_INPUTS = [Q("s_synchronized_inputs_contract", mem=8), Q("s_confirmed_inputs_contract", mem=8)]
 S_CONF = [Q("s_set_last_confirmed_contract", mem=8)]
@@ -101,7 +102,7 @@ def U(n, **kw):
 U_TIMERS = [U(n) for n in ["u_poll_interrupt_timer", "u_poll_disconnect_timer", "u_poll_both_in_order",
             "u_poll_interrupt_payload_default", "u_poll_interrupt_payload_zero", "u_poll_interrupt_payload_saturating", "u_poll_interrupt_payload_one"]]
 U_LIVENESS = [U(n) for n in ["u_foreign_magic_ignored", "u_liveness_and_resume"]]
-U_MALFORMED = [U(n) for n in ["u_input_wrong_status_count_dropped", "u_input_negative_start_dropped"]]
+U_MALFORMED = [U(n) for n in ["u_input_wrong_status_count_dropped", "u_input_negative_start_dropped"]] + [U(n, timeout=900, mem=14) for n in ["u_on_input_wrong_size_first_of_two", "u_on_input_wrong_size_second_of_two"]]
 U_LOSTACK = [U(n) for n in names_in("network__protocol@b.rs", "u_lost_ack_reply_.*")]
 U_STREAM_Q = [U(n, timeout=600, mem=14) for n in names_in("network__protocol@b.rs", "u_on_input_stream_.*_k1")] + \
              [U("u_on_input_stream_l5_s7_k2"), U("u_input_ack_content", timeout=600, mem=10),
@@ -144,7 +145,10 @@ V_ALL = [H(n, "spect", mem=8, timeout=900, unwindset={"SpectatorSession": 9, "dr
          H("v_advance_r21_behind7_catchup9", "spect", tier="thorough", mem=24, timeout=2400, unwindset={"SpectatorSession": 9, "drop_glue": 2})]
 T_UNIT = [H("t_checksum_comparison", "synct", mem=8, timeout=900, unwindset={"extend_with": 9}),
           H("t_checksum_comparison_cd2", "synct", mem=8, timeout=900, unwindset={"extend_with": 9})]
+T_TICK = [H(n, "synct", mem=10, timeout=1200, unwindset={"extend_with": 9, "drop_glue": 2}) for n in ["t_tick_cd2_first_rollback", "t_tick_cd1_steady", "t_tick_cd2_before_rollbacks", "t_tick_cd0"]]
+PC_OUTGOING = [PC("pc_outgoing_drained_any_endpoint_state", unwindset={"drop_glue": 2, "verif_q": 9, "send_ready_outgoing": 3, "next_complete_outgoing": 5})]
 U_NORESUME = [U("u_no_resume_after_disconnect")]
+U_ORDER = [U("u_new_orders_handles")]
 
 PE_CUTOFF = [H("pe_cutoff_agreement_gossip_not_earlier", "sess_ep", timeout=900, mem=12, unwindset={"extend_with": 9}),
              H("pe_cutoff_agreement_gossip_earlier", "sess_ep", timeout=900, mem=12, unwindset={"extend_with": 9}, finding="F3")]
@@ -157,14 +161,14 @@ def P(pid, harnesses, claim, note, **kw):
     d.update(kw)
     PROPERTIES[pid] = d
 
-P("C01", Q_ADD + Q_INPUT + Q_MISC + S_MIN + S_CONF + PC_GLUE[:1] + PC_ADJUST[:2] + U_STREAM_Q + U_STREAM_T + PC_ADJUST[2:],
-  "Kernels of the confirmed-timeline property decided on the real code: (Q, inductive, any history/ring wrap) add_input stores gaplessly, flags the earliest frame whose real input differs from the prediction handed out, input() hands out stored values as Confirmed; discard never drops a frame that can still be requested; (S) the rollback target is the earliest of all mispredictions and the disconnect frame; confirmed-frame bookkeeping keeps every frame a rollback can ask for; (PC) handle_rollback_and_save starts the rollback exactly then and from that frame, and the real adjust_gamestate re-simulates every frame from it with the stored real inputs as Confirmed (prediction only beyond the newest input); (U) the receiver delivers exactly the frames after its newest one, once, in order, with the packet's values, and acks release exactly the acknowledged prefix.",
+P("C01", Q_ADD + Q_INPUT + Q_MISC + S_MIN + S_CONF + PC_GLUE[:1] + PC_ADJUST[:2] + U_STREAM_Q + U_STREAM_T + PC_ADJUST[2:] + PC_CONF[1:2],
+  "Kernels of the confirmed-timeline property decided on the real code: (Q, inductive, any history/ring wrap) add_input stores gaplessly, flags the earliest frame whose real input differs from the prediction handed out, input() hands out stored values as Confirmed; discard never drops a frame that can still be requested; (S) the rollback target is the earliest of all mispredictions and the disconnect frame; confirmed-frame bookkeeping keeps every frame a rollback can ask for; (PC) handle_rollback_and_save starts the rollback exactly then and from that frame, and the real adjust_gamestate re-simulates every frame from it with the stored real inputs as Confirmed (prediction only beyond the newest input) - also when a remote queue is still in prediction mode without a misprediction of its own (the rollback resets every queue); confirmed_frame() is the minimum over all connected players; (U) the receiver delivers exactly the frames after its newest one, once, in order, with the packet's values, and acks release exactly the acknowledged prefix.",
   "Session-level composition (several ticks of P2PSession from its initial state) is outside what CBMC can symbolically execute here (a 4-tick run needs > 2M symex steps and > 40 GB); the claim is the conjunction of the component contracts, not an end-to-end run. Ring size 8 (quick) / 16 (thorough) instead of 128; u8 inputs; packets of 1-2 decoded inputs.")
 P("C02", S_CELLS + Q_MISC + S_CONF + PC_GLUE[:1] + PC_ADJUST + PC_SPARSE,
   "Saved-state ring: after saving w+1 consecutive frames (the most a session holds) each of the w frames still open to rollback is loadable and returns exactly what was saved for it, for w = 1,2,3 and any base frame; load_frame moves the frame counter to the loaded frame; queue windows keep every frame from (confirmed-1) on; handle_rollback_and_save (dense) ends every call - also a repeated call on a stalled frame - with a SaveGameState for the current frame, (sparse) saves/rolls back exactly when the last saved frame would leave the window; adjust_gamestate's request list: one Load (first incorrect frame, dense / last saved frame, sparse) whose cell holds that frame, then gapless re-advances with a Save before each re-simulated frame but the loaded one (dense) / only at the confirmed frame (sparse), frame counter back where it started (5 instances).",
   "The request-list shape of whole advance_frame calls is decided only through these component contracts (see C01 note).")
-P("C03", Q_INPUT + Q_ADD + Q_MISC[2:] + S_INPUTS,
-  "Input status truthfulness on the real InputQueue/SyncLayer: Confirmed <=> the frame's real input is stored, and the value is that input; Predicted => not yet received and value = predictor(newest received) (default if none), for PredictRepeatLast and PredictDefault, from any queue state; Disconnected <=> the player is disconnected as of an earlier frame, with the default input; the boundary frame (last real input) stays Confirmed.",
+P("C03", Q_INPUT + Q_ADD + Q_MISC[2:] + S_INPUTS + PC_INPUT + PC_CONF,
+  "Input status truthfulness on the real InputQueue/SyncLayer: Confirmed <=> the frame's real input is stored, and the value is that input; Predicted => not yet received and value = predictor(newest received) (default if none), for PredictRepeatLast and PredictDefault, from any queue state; Disconnected <=> the player is disconnected as of an earlier frame, with the default input; the boundary frame (last real input) stays Confirmed; a late input event of a player already marked disconnected changes nothing (its cut-off stays frozen); confirmed_frame() = min over every connected player of its newest received frame, for all flag/frame combinations of 2..4 players.",
   "confirmed_frame() monotonicity and finality across whole sessions rest on the component contracts (see C01 note).")
 P("C05", U_LOSTACK + U_STREAM_Q + U_HANDSHAKE + U_TIMERS[:3] + U_STREAM_T,
   "Lost-ack lemma on the real on_input: a retransmission whose base frame the receiver has already pruned (1/3/5 lost acks for prediction window 0/1/2) is answered with an ack for the receiver's newest frame, so the sender's base moves forward; acks release exactly the acknowledged prefix and leave the pending outputs starting right after the new base; duplicates/overlaps are skipped without double delivery; handshake: one inductive step from any Synchronizing state on any SyncReply, retry timer.",
@@ -173,16 +177,16 @@ P("C07", U_TIMERS + S_MIN + S_INPUTS + PC_DISC + PE_TWO,
   "Timers on the real poll(): NetworkInterrupted iff not yet announced and silence > notify delay (payload timeout-notify), Disconnected iff not yet sent and silence > timeout, never earlier, each once, in this order; rollback target includes the disconnect frame (min); a disconnected player's inputs are default/Disconnected exactly for frames after its last real one.",
   "The survivor's multi-tick timeline after a drop is covered only through these contracts.")
 P("C08", U_MALFORMED + U_LIVENESS + [h for h in K_QUICK if h["name"].startswith(("k_rle_stage_total", "k_rle_guard", "k_delta_total"))],
-  "On the real handle_message/on_input/decode: an input packet with a wrong number of connection statuses or ANY negative start frame is dropped with no effect at all (no ack processed, no gossip merged, nothing delivered, no reply); a packet with another session's magic has no effect and does not refresh the receive timer; every byte string (<= 3 bytes through the RLE stage, <= 5 through the guard, every delta shape <= 5 bytes) is decoded or rejected without panic/overflow/OOB and without oversized allocation.",
+  "On the real handle_message/on_input/decode: an input packet with a wrong number of connection statuses or ANY negative start frame is dropped with no effect at all (no ack processed, no gossip merged, nothing delivered, no reply); a decoded frame whose size does not fit the player count drops itself and everything after it in the packet (frames before it are delivered, no gap, no ack); a packet with another session's magic has no effect and does not refresh the receive timer; every byte string (<= 3 bytes through the RLE stage, <= 5 and 8 and 12 through the guard (12 bytes: three maximal run tokens - the sum, not only each run, is bounded), every delta shape <= 5 bytes) is decoded or rejected without panic/overflow/OOB and without oversized allocation.",
   "Narrow reading of 'wrong size': payload not divisible by the player count or not deserialisable; a header-valid packet with garbage payload still has its ack/gossip processed (as the code documents).")
-P("C09", U_CHECKSUM + PC_CHECKSUM,
-  "Checksum report store of an endpoint stays within its cap under in-order reports (cap regenerated to 4), oldest entry dropped first, newest stored.",
+P("C09", U_CHECKSUM + PC_CHECKSUM + PC_CONF[1:2],
+  "Checksum report store of an endpoint stays within its cap under in-order reports (cap regenerated to 4), oldest entry dropped first, newest stored; send gate and comparison kernels (pc_checksum_*); the confirmed frame they rely on is the min over connected players.",
   "Only the buffer/ordering kernel; the no-false-alarm half needs multi-tick session runs (outside reach).")
-P("C10", PE_CUTOFF + S_MIN + PC_INPUT + PE_PERM,
+P("C10", PE_CUTOFF + S_MIN + PC_INPUT + PE_PERM + S_INPUTS,
   "Cut-off agreement kernel on the real update_player_disconnects with real endpoints: when a surviving peer gossips that a player is disconnected as of frame m and this peer holds its inputs up to L, this peer adopts min(L, m), schedules the resimulation from the next frame and does not re-arm it on the next tick.",
   "KNOWN FINDING F3: for m < L the unchanged tree keeps last_frame = L (witness pe_cutoff_agreement_gossip_earlier, see known_findings.json); the m >= L half, the late-input freeze and the order independence hold.")
-P("C11", Q_DELAY + Q_DELAY2 + Q_ADD + PC_DELAY + PC_REGISTER,
-  "InputQueue delay change in steady state: the fills set_frame_delay announces are exactly the frames and values the queue stores when the next input is added (gapless, repeat-last); a decrease drops the next submission.",
+P("C11", Q_DELAY + Q_DELAY2 + Q_ADD + PC_DELAY + PC_REGISTER + PC_OUTGOING,
+  "InputQueue delay change in steady state: the fills set_frame_delay announces are exactly the frames and values the queue stores when the next input is added (gapless, repeat-last); a decrease drops the next submission; before the first input no fill is announced whatever the configured and new delay are, and the first input lands on frame = delay with default inputs before it; register_local_inputs hands the local input on and empties the outgoing buffer whatever protocol state the endpoint is in.",
   "KNOWN FINDING F4: two set_frame_delay calls before the next submission (witnesses q_delay_twice_1_2_3, _2_0_3, _1_3_1; controls with a repeated identical call pass). Session-level increase paths exceed the time cap (only the decrease instance pc_delay_1_to_0 is decided there).")
 P("C12", U_HANDSHAKE + U_LIVENESS + U_NORESUME + U_TIMERS + U_CAP + PC_EVENTS,
   "Lifecycle on the real endpoint: Synchronizing counts 1..4 then exactly one Synchronized after five distinct matched round trips (duplicates/stray/foreign replies do not count); NetworkResumed iff an interruption was announced; interruption/disconnect timers; a silent peer over the pending-output cap is asked to disconnect exactly once.",
@@ -190,24 +194,24 @@ P("C12", U_HANDSHAKE + U_LIVENESS + U_NORESUME + U_TIMERS + U_CAP + PC_EVENTS,
 P("C14", K_QUICK + K_THOROUGH, PROPERTIES["C14"]["claim"], PROPERTIES["C14"]["note"],
   bounds=PROPERTIES["C14"]["bounds"], outside=PROPERTIES["C14"]["outside"], assumptions=PROPERTIES["C14"]["assumptions"])
 P("C15", M_ALL + U_QUALITY + PC_WAIT,
-  "Kernel only: TimeSync average (f32 bit-precise) within one frame of the true mean difference and within one of k in a steady k-frame lead; frame-advantage formula; quality report/reply bookkeeping (ping = now - echoed timestamp, what one side reports as local is the other's remote); network_stats error/values contract.",
+  "Kernel only: TimeSync average (f32 bit-precise) within one frame of the true mean difference and within one of k in a steady k-frame lead; frame-advantage formula; quality report/reply bookkeeping (ping = now - echoed timestamp, what one side reports as local is the other's remote); network_stats error/values contract; frames_ahead() counts only remotes that are not marked disconnected (0 if none is left).",
   "The closed-loop settling claims need >= 30 frames of two live sessions: outside reach.", level="other")
-P("C17", U_HANDSHAKE + PE_TWO + PE_PERM + PC_REGISTER + VC_SELF,
-  "Handshake behaviour is the same function of message order for every value of the random nonces (nonces symbolic in the inductive step).",
-  "Hash-order independence (solver-chosen permutations of map iteration) not yet built.")
-P("C18", U_CAP + U_CHECKSUM + U_STREAM_Q + Q_ADD + PC_EVENTS[:2],
-  "Bounds on the real buffers: remembered received inputs stay within [newest-2w, newest]; unacknowledged outputs of a silent peer trigger exactly one disconnect request at the cap; checksum store <= cap; InputQueue length <= ring size.",
-  "Session-level buffers (event queue, outgoing local inputs) not yet covered.")
+P("C17", U_HANDSHAKE + PE_TWO + PE_PERM + PC_REGISTER + VC_SELF + U_ORDER,
+  "Handshake behaviour is the same function of message order for every value of the random nonces (nonces symbolic in the inductive step); the endpoint constructor orders its handles ascending for every order the registry delivers them in (slice i of a packet <-> i-th smallest handle); two disconnects in one poll and gossip adoption give the same result under every iteration order.",
+  "Whole sessions executed twice under different permutations are outside reach; the order-sensitive sites named in the property's anchors are decided one by one.")
+P("C18", U_CAP + U_CHECKSUM + U_STREAM_Q + Q_ADD + PC_EVENTS[:2] + PC_OUTGOING,
+  "Bounds on the real buffers: remembered received inputs stay within [newest-2w, newest]; unacknowledged outputs of a silent peer trigger exactly one disconnect request at the cap; checksum store <= cap; InputQueue length <= ring size; the outgoing-local-input buffer is empty after register_local_inputs whatever protocol state (Running/Synchronizing/Disconnected/Shutdown) the only remote endpoint is in.",
+  "The outgoing buffer is decided for one local player and one endpoint (two local players with different delays: pc_register_* under C11/C17).")
 
 P("C06", V_ALL + S_INPUTS[1:],
   "Spectator replay on the real SpectatorSession::advance_frame from ring states an in-order feed produces (positions enumerated: level, 1/3/5/7 behind, exactly one ring lap and more behind, start of session; inputs, gossip symbolic): request count = catch-up contract, each request carries exactly the buffered inputs of its frame with Disconnected exactly where the host's gossip says so, cursor advances by the number delivered, PredictionThreshold iff not yet received, SpectatorTooFarBehind iff overwritten; in-order input events maintain the ring; host side: confirmed_inputs blanks exactly players disconnected as of an earlier frame.",
   "advance_frame's initial poll_remote_clients() is stubbed out in the V harnesses (host endpoint poll is decided by the U harnesses; with an empty socket it cannot touch the ring). Ring of 8 slots instead of 60. The host->spectator stream over a lossy link is covered by the C05/C01 endpoint contracts only.")
-P("C13", T_UNIT,
-  "Checksum comparison kernel of the real SyncTestSession::checksums_consistent for every frame of the check window: the first checksum of a frame is remembered, a later differing re-simulation is flagged, an equal one is not, history outside the window is dropped.",
-  "Whole sync-test runs (request contract over several ticks, detection latency <= check_distance+2) and the builder's rejection of check_distance >= window could not be executed symbolically within the caps (see probes/attempted/README.md): only the kernel is claimed.")
+P("C13", T_UNIT + T_TICK,
+  "Checksum comparison kernel of the real SyncTestSession::checksums_consistent for every frame of the check window: the first checksum of a frame is remembered, a later differing re-simulation is flagged, an equal one is not, history outside the window is dropped. One WHOLE advance_frame call from constructed run states (check distance 0/1/2, before the first rollback, on the first rollback, steady state with check distance 1): request list = Load(c-d) [cell holds it], (Save,) Advance with the stored inputs as Confirmed for every frame c-d..c-1, Save(c), Advance(new input); frame counter +1; the first checksum of every saved frame of the window is recorded already on the first rollback; a deterministic game is not flagged.",
+  "Runs over several ticks and the builder's rejection of check_distance >= window could not be executed symbolically within the caps (probes/attempted/README.md: the root cause of the Kani crash on Result<Session, GgrsError> is a 128-bit niche; two workarounds were tried). The whole-call harnesses use one player, concrete frame positions per instance and symbolic inputs/checksums; steady-state calls at check distance >= 2 (where the comparison itself is symbolic) are decided only through the kernel harness.")
 P("C16", PC_MISUSE + PC_DISC[:1],
   "Run-time misuse on the real P2PSession: input for a remote/unknown handle, delay change or stats for the wrong player type, advancing with the local input missing or before synchronisation, disconnecting a local/unknown/already disconnected player (also via the sibling handle of the same address) return the documented error and leave frame counter, event queue, pending inputs, statuses and send queues unchanged.",
   "The SessionBuilder half of the property (accepted configurations == documented ones) is NOT decided: the by-value builder with three endpoint maps exceeds 25 min of symbolic execution per call sequence and triggers a Kani internal compiler error with the inline container model (probes/attempted/README.md).")
-P("C04", PC_GLUE[1:] + PC_LOCKSTEP + PC_ADJUST + S_CELLS + PC_SPARSE[:1],
-  "Prediction gate of the real advance_rollback_frame (rollback and local-input registration stubbed) from ANY frame counters, windows 1..3, dense and sparse saving: a new frame is simulated iff current - min(confirmed_frame(), current[, last saved]) < max_prediction (nothing confirmed counts as frame -1), a stalled call leaves the frame unchanged and returns no AdvanceFrame - so a peer starved for arbitrarily long never runs more than the window ahead; rollbacks load a frame inside the window whose cell holds it; lockstep (window 0): a frame is simulated iff every connected player's input for it has arrived, only with Confirmed/Disconnected inputs, never Save/Load.",
+P("C04", PC_GLUE[1:] + PC_LOCKSTEP + PC_ADJUST + S_CELLS + PC_SPARSE[:1] + PC_CONF,
+  "Prediction gate of the real advance_rollback_frame (rollback and local-input registration stubbed) from ANY frame counters, windows 1..3, dense and sparse saving: a new frame is simulated iff current - min(confirmed_frame(), current[, last saved]) < max_prediction (nothing confirmed counts as frame -1), a stalled call leaves the frame unchanged and returns no AdvanceFrame - so a peer starved for arbitrarily long never runs more than the window ahead; rollbacks load a frame inside the window whose cell holds it; confirmed_frame() itself = min over all connected players (2..4 players, every flag combination); lockstep (window 0): a frame is simulated iff every connected player's input for it has arrived, only with Confirmed/Disconnected inputs, never Save/Load.",
   "The gate harness stubs handle_rollback_and_save, register_local_inputs (its effect on the local newest frame is mimicked) and the spectator feed; windows 0..3 instead of 0..12 (the gate is parametric in the window).")
